@@ -471,6 +471,7 @@ impl Transform {
                 }
             }
             Cell::Pair(_, _) => {
+                let improper = template.is_improper_list();
                 let mut v = vec![];
                 let mut template_iter = template.iter().peekable();
                 let mut template = template_iter.next().unwrap();
@@ -499,7 +500,17 @@ impl Transform {
                         }
                     };
                 }
-                Some(Cell::new_list(v))
+                if improper {
+                    // the last element is the expansion of the template after the dot
+                    let tail = v.pop().unwrap_or(Cell::Nil);
+                    if v.is_empty() {
+                        Some(tail)
+                    } else {
+                        Some(Cell::new_improper_list(v, tail))
+                    }
+                } else {
+                    Some(Cell::new_list(v))
+                }
             }
             cell => Some(cell.clone()),
         }
